@@ -53,6 +53,10 @@ pub struct CaseB {
     pub mark_preempt: u8,
     /// inject spurious failures into compare_exchange_weak (at most two per operation)
     pub spurious: bool,
+    /// every marking thread gets its own pre-emption counter (several threads can sit between their mark and their
+    /// unlink at the same time); off = only the latest marker is held back
+    #[serde(default)]
+    pub park_all: bool,
 }
 
 const MAIN: usize = usize::MAX;
@@ -225,6 +229,8 @@ pub struct St {
     lbound: u32,
     force: Option<(usize, u32)>,
     mark_preempt: u8,
+    park_all: bool,
+    parked: Vec<u32>,
     spurious: bool,
     spurious_left: Vec<u8>,
     pub classes: BTreeSet<&'static str>,
@@ -296,7 +302,15 @@ impl St {
         if cands.is_empty() {
             return MAIN;
         }
-        if let Some((victim, left)) = self.force {
+        if self.park_all {
+            let free: Vec<usize> = cands.iter().copied().filter(|c| self.parked[*c] == 0).collect();
+            for p in self.parked.iter_mut() {
+                *p = p.saturating_sub(1);
+            }
+            if !free.is_empty() {
+                cands = free;
+            }
+        } else if let Some((victim, left)) = self.force {
             if left > 0 && cands.len() > 1 && cands.contains(&victim) {
                 cands.retain(|c| *c != victim);
                 self.force = Some((victim, left - 1));
@@ -451,7 +465,15 @@ fn after_event(sh: &Shared, t: usize, e: &Event) {
             if e.wrote && (e.new >> 32) == 0 && (e.old >> 32) != 0 {
                 // a mark: size field -> 0
                 if st.mark_preempt > 0 {
-                    st.force = Some((t, st.mark_preempt as u32));
+                    if st.park_all {
+                        st.parked[t] = st.mark_preempt as u32;
+                        st.classes.insert("marker-parked");
+                        if st.parked.iter().filter(|p| **p > 0).count() >= 2 {
+                            st.classes.insert("two-markers-parked-at-once");
+                        }
+                    } else {
+                        st.force = Some((t, st.mark_preempt as u32));
+                    }
                 }
                 st.classes.insert("mark-cas");
                 st.my_mark[t] = Some(off);
@@ -1156,6 +1178,8 @@ fn run_case_b_inner(case: &CaseB, o: &OptsB) -> RunB {
         lbound,
         force: None,
         mark_preempt: case.mark_preempt,
+        park_all: case.park_all,
+        parked: vec![0; n],
         spurious: case.spurious,
         spurious_left: vec![2; n],
         classes: BTreeSet::new(),
